@@ -7,6 +7,8 @@ its finite-domain attributes (booleans, storage choices).
 """
 import ast
 import copy
+import os
+import pickle
 
 from .interp import Interp, Tok, Unsupported, pure_sym, Renamer
 from .karr import Lin, State, join
@@ -82,6 +84,21 @@ def written_kinds(fn):
                 if lit[1]:
                     kinds.add("A")
     return kinds
+
+
+_PREFETCH = None
+
+
+def _prefetch_worker(i):
+    model, jobs = _PREFETCH
+    key, rel, owner, fn, ent, partvars, cfg = jobs[i]
+    try:
+        it = model._run_job(fn, ent, partvars)
+        it.hooks = {}
+        it.resolver = None
+        return key, pickle.dumps(it, protocol=pickle.HIGHEST_PROTOCOL)
+    except Exception:
+        return key, None
 
 
 class GenRun:
@@ -239,12 +256,15 @@ class Model:
         self._init_cache[cname] = (res, it.attr_writes)
         return self._init_cache[cname]
 
-    def configs(self, cname, fn):
+    def configs(self, cname, fn, split_all=False):
         """finite-domain attributes read by the generator -> list of valuations"""
         entries, _ = self.init_facts(cname)
         # only attributes the generator branches on need a split; attributes that
         # merely flow into action arguments keep their value set inside the state
         used = set()
+        if split_all:
+            used = {n.attr for n in ast.walk(fn) if isinstance(n, ast.Attribute)
+                    and isinstance(n.value, ast.Name) and n.value.id == "self"}
         for t in ast.walk(fn):
             if isinstance(t, (ast.If, ast.While, ast.IfExp)):
                 for n in ast.walk(t.test):
@@ -305,14 +325,13 @@ class Model:
                 out["_convert_action"] = self._conv
         return out
 
-    def runs(self, cname):
-        if cname in self._run_cache:
-            return self._run_cache[cname]
+    def _jobs(self, cname, split_all):
+        """(key, fn, entries, partvars, cfg) for every generator run the class needs"""
         rel, owner, fn = self.generator(cname)
         entries, _ = self.init_facts(cname)
         pv, hooks = self.hooks_for(fn)
-        out = []
-        for cfg in self.configs(cname, fn):
+        jobs = []
+        for cfg in self.configs(cname, fn, split_all):
             ent = []
             for e in entries:
                 e = e.copy()
@@ -323,19 +342,66 @@ class Model:
                     ent.append(e)
             if not ent:
                 continue
-            # classes sharing one generator (the Revolve family) with the same
-            # facts about the attributes it reads are analysed once
+            # classes sharing one generator (the Revolve family) with the same facts about the
+            # attributes it reads are analysed once
             reads = {n.attr for n in ast.walk(fn) if isinstance(n, ast.Attribute)
                      and isinstance(n.value, ast.Name) and n.value.id == "self"}
-            key = (id(fn), tuple(sorted(cfg.items())), tuple(sorted(self._freeze(e, reads) for e in ent)))
+            key = (rel, owner.name, tuple(sorted(cfg.items())), tuple(sorted(self._freeze(e, reads) for e in ent)))
+            jobs.append((key, rel, owner, fn, ent, pv + tuple(cfg), cfg))
+        return jobs
+
+    def _run_job(self, fn, ent, partvars):
+        pv, hooks = self.hooks_for(fn)
+        it = Interp(fn, entry=ent, partvars=partvars, hooks=hooks)
+        it.summaries = self.summaries_for(fn)
+        it.run()
+        return it
+
+    def prefetch(self, cnames, split_all=False):
+        """analyse all generator runs that are not cached yet, in parallel processes"""
+        todo = {}
+        for c in cnames:
+            try:
+                for job in self._jobs(c, split_all):
+                    if job[0] not in self._interp_cache and job[0] not in todo:
+                        todo[job[0]] = job
+            except AnchorMissing:
+                continue
+        if len(todo) < 2 or os.environ.get("VERIF_SERIAL"):
+            return
+        # summaries are computed once in the parent so that the children inherit them
+        for job in todo.values():
+            self.summaries_for(job[3])
+        import multiprocessing as mp
+        ctx = mp.get_context("fork")
+        jobs = list(todo.values())
+        global _PREFETCH
+        _PREFETCH = (self, jobs)
+        try:
+            with ctx.Pool(min(len(jobs), os.cpu_count() or 2, 8)) as pool:
+                for key, blob in pool.imap_unordered(_prefetch_worker, range(len(jobs))):
+                    if blob is not None:
+                        it = pickle.loads(blob)
+                        pv, hooks = self.hooks_for(it.fn)
+                        it.hooks = hooks
+                        self._interp_cache[key] = it
+        except Exception:
+            pass          # fall back to serial analysis
+        finally:
+            _PREFETCH = None
+
+    def runs(self, cname, split_all=False):
+        if (cname, split_all) in self._run_cache:
+            return self._run_cache[(cname, split_all)]
+        out = []
+        for key, rel, owner, fn, ent, partvars, cfg in self._jobs(cname, split_all):
             it = self._interp_cache.get(key)
             if it is None:
-                it = Interp(fn, entry=ent, partvars=pv + tuple(cfg), hooks=hooks)
-                it.summaries = self.summaries_for(fn)
-                it.run()
+                it = self._run_job(fn, ent, partvars)
                 self._interp_cache[key] = it
-            out.append(GenRun(cname, rel, owner.name, fn, cfg, it, ent))
-        self._run_cache[cname] = out
+            # the interpreter owns the syntax tree its records point into
+            out.append(GenRun(cname, rel, owner.name, it.fn, cfg, it, ent))
+        self._run_cache[(cname, split_all)] = out
         return out
 
     @staticmethod
@@ -347,6 +413,7 @@ class Model:
         return (rows, ineq, enums)
 
     def all_runs(self):
+        self.prefetch(self.concrete_classes())
         for cname in self.concrete_classes():
             try:
                 for r in self.runs(cname):
